@@ -254,8 +254,11 @@ class SEnum:
 class Trail:
     def __init__(self):
         self.log = []
+        self.loading = set()     # indices of entries written while module-level code was running (imports during a path)
 
     def record(self, obj, key, old):
+        if LOADING[0]:
+            self.loading.add(len(self.log))
         self.log.append((obj, key, old))
 
 
@@ -263,6 +266,8 @@ class Trail:
 # repository are registered after their module has been loaded; a write to one of them during an exploration is logged
 GLOBAL_OBJS = {}      # id(value) -> (qualified name, value)
 GLOBAL_WRITES = {}    # qualified name -> number of writes seen
+GLOBAL_READS = {}     # module.name of a module-level variable that some function rebinds (`global`) -> reads seen
+WRITTEN_GLOBALS = set()   # (module name, variable) declared `global` in some function of the repository (static scan)
 LOADING = [0]         # >0 while module-level code is being executed
 
 
@@ -275,6 +280,8 @@ def register_global(name, v, depth=0):
         items = [x for _, x in getattr(v, 'items', ())]
     elif type(v).__name__ == 'PDict':
         items = [e[1] for e in getattr(v, 'd', {}).values() if isinstance(e, tuple) and len(e) > 1]
+    elif type(v).__name__ == 'Obj':
+        items = list(getattr(v, 'fields', {}).values())
     for x in items:
         register_global(name + '[..]', x, depth + 1)
 
@@ -436,6 +443,18 @@ class Frame(Mutable):
             self.vars[key] = val
 
     def set(self, k, v):
+        g = self.vars.get('$globals')
+        if g and k in g:
+            # `global k` in this function: the assignment rebinds the module-level variable
+            f = self
+            while f is not None and '$module' not in f.vars:
+                f = f.parent
+            if f is not None:
+                if not LOADING[0]:
+                    nm = '%s.%s' % (f.vars['$module'].name, k)
+                    GLOBAL_WRITES[nm] = GLOBAL_WRITES.get(nm, 0) + 1
+                f._write(k, v)
+                return
         self._write(k, v)
 
 
